@@ -503,7 +503,12 @@ impl Scanner {
                     self.current = slice_start;
                     return Err(());
                 }
+                let is_line_feed = chars == "\n";
                 read_chars.push_str(chars);
+                if is_line_feed {
+                    // Not a hex digit, but still the end of a line of the source.
+                    self.line += 1;
+                }
             }
             let result = u8::from_str_radix(read_chars.as_str(), 16);
             match result {
@@ -534,6 +539,9 @@ impl Scanner {
                 "$" => {
                     let s = self.advance();
                     if s != "{" {
+                        if s == "\n" {
+                            self.line += 1;
+                        }
                         return self.error_token("Expected '{' in string interpolation.");
                     }
                     if self.parantheses.len() >= common::INTERPOLATION_DEPTH_MAX {
@@ -587,6 +595,10 @@ impl Scanner {
                         "\"" => buffer.push_str("\""),
                         "\\" => buffer.push_str("\\"),
                         "0" => buffer.push_str("\0"),
+                        "\n" => {
+                            self.line += 1;
+                            return self.error_token("Invalid escape sequence.");
+                        }
                         _ => {
                             return self.error_token("Invalid escape sequence.");
                         }
